@@ -28,6 +28,12 @@ def run_one(ent, tier):
         if s.count(ent["old"]) != 1:
             return ent, "BROKEN-MUTANT", f"old text occurs {s.count(ent['old'])} times"
         open(p, "w", encoding="utf8").write(s.replace(ent["old"], ent["new"]))
+        for (f2, old2, new2) in ent.get("more", []):
+            p2 = os.path.join(d, f2)
+            s2 = open(p2, encoding="utf8").read()
+            if s2.count(old2) != 1:
+                return ent, "BROKEN-MUTANT", f"second site: old text occurs {s2.count(old2)} times"
+            open(p2, "w", encoding="utf8").write(s2.replace(old2, new2))
         r = subprocess.run([sys.executable, "-c", f"import sys; sys.path.insert(0, {d!r}); import importlib; "
                                                   f"importlib.import_module({ent['file'][:-3].replace('/', '.')!r})"],
                            capture_output=True, text=True)
